@@ -126,16 +126,16 @@ def Curve.atFraction (c : Curve α P) (f : α) : Option (Station α P) := c.atLe
 
 /-! ### between_lengths (2-D only in the Rust code; the model is dimension generic) -/
 
-/-- the walk of `between_lengths`: state `(working, wrap, points)` -/
+/-- the walk of `between_lengths`: state `(working, wrap, points)`; `none` = out of fuel -/
 def betweenWalk (c : Curve α P) (endSt : Station α P) (lastIndex : Nat) :
-    Nat → Station α P → Bool → List P → List P
-  | 0, working, _, pts => pts ++ [working.point]
+    Nat → Station α P → Bool → List P → Option (List P)
+  | 0, _, _, _ => none
   | fuel + 1, working, wrap, pts =>
     let pts := pts ++ [working.point]
     let next := working.index + 1
     if lastIndex < next then
-      if !wrap then pts else betweenWalk c endSt lastIndex fuel (c.atVertex 0) false pts
-    else if decide (c.lengthAlong working ≤ c.lengthAlong endSt) && decide (endSt.index < next) then pts
+      if !wrap then some pts else betweenWalk c endSt lastIndex fuel (c.atVertex 0) false pts
+    else if decide (c.lengthAlong working ≤ c.lengthAlong endSt) && decide (endSt.index < next) then some pts
     else betweenWalk c endSt lastIndex fuel (c.atVertex next) wrap pts
 
 /-- `between_lengths`; the raw point list before the final `from_points` -/
@@ -146,9 +146,11 @@ def Curve.betweenRaw (c : Curve α P) (l0 l1 : α) : Option (List P) :=
     let lastIndex := if c.closed then c.count - 2 else c.count - 1
     if decide (sabs (l1 - l0) < c.tol) || (!c.closed && wrap) then none
     else
-      let pts := betweenWalk c endSt lastIndex (2 * c.count + 2) start wrap []
-      match pts.getLast? with
-      | some lastP => some (if c.tol < vdist endSt.point lastP then pts ++ [endSt.point] else pts)
+      match betweenWalk c endSt lastIndex (2 * c.count + 2) start wrap [] with
+      | some pts =>
+        match pts.getLast? with
+        | some lastP => some (if c.tol < vdist endSt.point lastP then pts ++ [endSt.point] else pts)
+        | none => none
       | none => none
   | _, _ => none
 
